@@ -13,7 +13,7 @@
   pending run `ops_to_dispatch`, flushed when the next visited op is not dispatchable or has a
   different parent block. Nested ops of a leaf are visited before the leaf, so a leaf with `inner`
   flushes the pending run first.
-* `dispatch fixed nb`: dm phase (core `nb-1`) then compute phase (core 0) over the blocks of the
+* `dispatch r fixed nb` (`r`: which `dispatch_to_compute`, see `ruleCp`): dm phase (core `nb-1`) then compute phase (core 0) over the blocks of the
   function; `fixed = false` is the upstream `any(<generator>)` which stops at the first block that
   changed (finding D7), `fixed = true` is the tree with fixes/F04 (`any([...])`).
 * `runF`: which ops one core executes, in order. Every control decision (branch taken, trip count,
@@ -42,6 +42,8 @@ inductive OpKind where
       -- `dart.StreamingRegionOpBase`; `firstGeneric`: first op of the body is `dart.GenericOp`;
       -- `ms`: `ext.supported_kernel.is_same_kernel(kernel_op)` for every extension of
       -- `XDMA_EXT_SET` with a supported kernel, in order
+  | coreCall     -- a `func.call @snax_cluster_core_idx` that is already in the program (not dispatchable, but
+                 -- `InsertFunctionDeclaration` reacts to it)
   | other
   deriving DecidableEq, Repr
 
@@ -64,13 +66,15 @@ def ruleDm : OpKind → Except RuleErr Bool
     | .ok x => .ok (x && fg && ms.any id)
   | _ => .ok false
 
-/-- `dispatch_to_compute` -/
-def ruleCp : OpKind → Except RuleErr Bool
+/-- `dispatch_to_compute`. `r = false`: the upstream rule, `any(not is_same_kernel)` (finding DC14a);
+`r = true`: the rule with fixes/FC14a, `any(is_same_kernel)` ("don't dispatch to compute if the kernel is
+provided by a StreamerExtension"). -/
+def ruleCp (r : Bool) : OpKind → Except RuleErr Bool
   | .generic => .ok true
   | .stream acc fg ms =>
     match accCheck acc with
     | .error e => .error e
-    | .ok x => .ok (if x && fg then !(ms.any (fun m => !m)) else true)
+    | .ok x => .ok (if x && fg then (if r then !(ms.any id) else !(ms.any (fun m => !m))) else true)
   | _ => .ok false
 
 /-! ### the extension kernels of the xDMA -/
@@ -101,11 +105,12 @@ def specClass : OpKind → Cls
   | .copy => .dm
   | .generic => .cp
   | .stream acc fg ms => if acc = .xdma && fg && ms.any id then .dm else .cp
+  | .coreCall => .all
   | .other => .all
 
 /-- the class the two rules give together (none: a rule raises, or both claim the op) -/
-def rulesClass (k : OpKind) : Option Cls :=
-  match ruleDm k, ruleCp k with
+def rulesClass (r : Bool) (k : OpKind) : Option Cls :=
+  match ruleDm k, ruleCp r k with
   | .ok true, .ok false => some .dm
   | .ok false, .ok true => some .cp
   | .ok false, .ok false => some .all
@@ -120,7 +125,7 @@ structure Leaf where
   deriving DecidableEq, Repr
 
 def dmOf (l : Leaf) : Bool := match ruleDm l.kind with | .ok b => b | .error _ => false
-def cpOf (l : Leaf) : Bool := match ruleCp l.kind with | .ok b => b | .error _ => false
+def cpOf (r : Bool) (l : Leaf) : Bool := match ruleCp r l.kind with | .ok b => b | .error _ => false
 
 mutual
 inductive Op where
@@ -217,19 +222,27 @@ def prelude (nb : Nat) : Bool → Bool → List Pre
   | false, true => [.call (List.range nb), .const 0, .cmp 0]
   | false, false => []
 
-def dispatch (fixed : Bool) (nb : Nat) (f : Func) : Func :=
+def dispatch (r fixed : Bool) (nb : Nat) (f : Func) : Func :=
   let b1 := phaseBlocks fixed dmOf (nb - 1) f.blocks
-  let b2 := phaseBlocks fixed cpOf 0 b1
-  ⟨prelude nb (changedBlocks dmOf f.blocks) (changedBlocks cpOf b1) ++ f.pre, b2⟩
+  let b2 := phaseBlocks fixed (cpOf r) 0 b1
+  ⟨prelude nb (changedBlocks dmOf f.blocks) (changedBlocks (cpOf r) b1) ++ f.pre, b2⟩
 
 /-- the pattern is applied to every `func.func` of the module on its own; neither the visibility nor the
     name of a function is looked at (so the model of a function carries neither), and an external
     declaration is a function without blocks -/
-def dispatchModule (fixed : Bool) (nb : Nat) (m : List Func) : List Func := m.map (dispatch fixed nb)
+def dispatchModule (r fixed : Bool) (nb : Nat) (m : List Func) : List Func := m.map (dispatch r fixed nb)
 
-/-- the external declaration of `snax_cluster_core_idx` is inserted iff the call is -/
-def declInserted (nb : Nat) (f : Func) : Bool :=
-  changedBlocks dmOf f.blocks || changedBlocks cpOf (phaseBlocks true dmOf (nb - 1) f.blocks)
+def isCoreCall (l : Leaf) : Bool :=
+  match l.kind with
+  | .coreCall => true
+  | _ => false
+
+/-- `InsertFunctionDeclaration`: the external declaration of `snax_cluster_core_idx` is inserted (or
+    replaced) as soon as the function contains a call of it after the first pattern ran — the call the
+    pass emitted, or one that was in the program already -/
+def declInserted (r : Bool) (nb : Nat) (f : Func) : Bool :=
+  changedBlocks dmOf f.blocks || changedBlocks (cpOf r) (phaseBlocks true dmOf (nb - 1) f.blocks) ||
+    changedBlocks isCoreCall f.blocks
 
 /-! error path: the first rule evaluation that raises aborts the pass -/
 
@@ -256,10 +269,67 @@ def errBlocks : List BB → Option RuleErr
   | bb :: rest => (errB bb.body).orElse (fun _ => errBlocks rest)
 
 /-- the pass with its error path (fixed tree: the dm phase evaluates the rule on every op) -/
-def dispatchE (nb : Nat) (f : Func) : Except RuleErr Func :=
+def dispatchE (r : Bool) (nb : Nat) (f : Func) : Except RuleErr Func :=
   match errBlocks f.blocks with
   | some e => .error e
-  | none => .ok (dispatch true nb f)
+  | none => .ok (dispatch r true nb f)
+
+/-! ## the whole pass on a module
+
+`DispatchRegions.apply`: first `DispatchRegionsRewriter` on every `func.func` in module order (a rule that
+raises aborts), then `InsertFunctionDeclaration` on every `func.call @snax_cluster_core_idx`: it builds
+the external declaration and `SymbolTable.insert_or_update`s it — appended at the end of the module if
+absent, REPLACING the existing declaration otherwise. The replacement detaches the old declaration op;
+if that op is still ahead in the walker's worklist (it stands after the function holding the call) the
+walker trips over it: `ValueError: Operation insertion point must have a parent block` (finding DC14b —
+in particular the pass cannot be run on its own output). `declFix = true`: fixes/FC14b (an existing
+declaration is left alone). -/
+
+inductive Item where
+  | fn (f : Func)
+  | coreDecl            -- `func.func private @snax_cluster_core_idx() -> i32`
+
+inductive ModErr where
+  | rule (e : RuleErr)
+  | detachedDecl        -- the ValueError of the walker
+  deriving DecidableEq, Repr
+
+def isCoreDecl : Item → Bool
+  | .coreDecl => true
+  | .fn _ => false
+
+/-- the function holds a call of `snax_cluster_core_idx` after the first pattern -/
+def itemCalls (r : Bool) (nb : Nat) : Item → Bool
+  | .fn f => declInserted r nb f
+  | .coreDecl => false
+
+def firstRuleErr : List Item → Option RuleErr
+  | [] => none
+  | .fn f :: rest => (errBlocks f.blocks).orElse (fun _ => firstRuleErr rest)
+  | .coreDecl :: rest => firstRuleErr rest
+
+/-- a declaration stands after a function that calls it -/
+def lateDecl (r : Bool) (nb : Nat) : List Item → Bool
+  | [] => false
+  | it :: rest => (itemCalls r nb it && rest.any isCoreDecl) || lateDecl r nb rest
+
+def dispatchItem (r : Bool) (nb : Nat) : Item → Item
+  | .fn f => .fn (dispatch r true nb f)
+  | .coreDecl => .coreDecl
+
+def dispatchModuleE (r declFix : Bool) (nb : Nat) (m : List Item) : Except ModErr (List Item) :=
+  match firstRuleErr m with
+  | some e => .error (.rule e)
+  | none =>
+    if !declFix && lateDecl r nb m then .error .detachedDecl
+    else
+      let out := m.map (dispatchItem r nb)
+      .ok (if m.any (itemCalls r nb) && !(m.any isCoreDecl) then out ++ [.coreDecl] else out)
+
+def fnsOf : List Item → List Func
+  | [] => []
+  | .fn f :: rest => f :: fnsOf rest
+  | .coreDecl :: rest => fnsOf rest
 
 /-! ## pinning the core id -/
 
@@ -318,8 +388,8 @@ def runF (core : Nat) (orc : Orc) (f : Func) (fuel entry : Nat) : List Leaf :=
   runBlocks (coreOf f core) orc f.blocks fuel entry
 
 /-- the rule of the property: who may execute an op -/
-def allowed (nb core : Nat) (l : Leaf) : Bool :=
-  (!(dmOf l) || decide (core = nb - 1)) && (!(cpOf l) || decide (core = 0))
+def allowed (r : Bool) (nb core : Nat) (l : Leaf) : Bool :=
+  (!(dmOf l) || decide (core = nb - 1)) && (!(cpOf r l) || decide (core = 0))
 
 /-! ## a concrete oracle for the driver (shared with the harness interpreter) -/
 
